@@ -736,7 +736,7 @@ fn main() {
         }));
         reg.add(Seq(SeqTokens { level: owmr, dq: 4, dt: 5 }));
         reg.add(Seq(SeqTokens { level: mwmr, dq: 3, dt: 4 }));
-        reg.add(Seq(SeqTokens { level: ConcurrencyLevel::SingleThreadShared, dq: 3, dt: 4 }));
+        reg.add(Seq(SeqTokens { level: ConcurrencyLevel::SingleThreadShared, dq: 4, dt: 5 }));
         // the unsynchronised level takes its own branch in acquire_*_token (no mutex, constant version 1)
         reg.add(Seq(SeqTokens { level: ConcurrencyLevel::SingleThreadStrict, dq: 3, dt: 4 }));
     });
